@@ -760,7 +760,14 @@ func (w *world) realExpiry(ttl int64) string {
 			c.Close()
 			return "check-false-after-campaign"
 		}
-		lo, hi := t0.Add(time.Duration(ttl)*time.Second), t1.Add(time.Duration(ttl)*time.Second)
+		// the lease stores start + the TTL etcd GRANTED (it may exceed the requested one)
+		granted := ttl
+		if r, err := w.e.Client.Get(context.Background(), key); err == nil && len(r.Kvs) == 1 && r.Kvs[0].Lease != 0 {
+			if tl, err := w.e.Client.TimeToLive(context.Background(), clientv3.LeaseID(r.Kvs[0].Lease)); err == nil && tl.GrantedTTL > 0 {
+				granted = tl.GrantedTTL
+			}
+		}
+		lo, hi := t0.Add(time.Duration(granted)*time.Second), t1.Add(time.Duration(granted)*time.Second)
 		deadline := time.Now().Add(60 * time.Second)
 		verdict := ""
 		for verdict == "" {
